@@ -2309,7 +2309,7 @@ def to_arrow(
                 [
                     pyarrow.field(str(i), values[i].type).with_nullable(
                         is_option
-                        or isinstance(layout.content(i).type, ak.types.OptionType)
+                        or isinstance(layout.content(i), ak._util.optiontypes)
                     )
                     for i in range(len(values))
                 ],
